@@ -263,12 +263,27 @@ private:
 
     std::optional<DFS::SectorBuffer> read_block(unsigned long lba) override
     {
-      if (lba >= sectors_.size())
+      if (0 == geom_.sectors)
 	return std::nullopt;
-      const Sector& sect(sectors_[lba]);
-      DFS::SectorBuffer buf;
-      std::copy(sect.data.begin(), sect.data.end(), buf.begin());
-      return buf;
+      // Find the sector by its address.  We cannot simply use lba as an
+      // index into sectors_, because an unreadable sector is absent
+      // from it and all the later sectors would then be mis-addressed.
+      Track::SectorAddress addr;
+      addr.head = static_cast<unsigned char>(side_);
+      addr.cylinder = static_cast<unsigned char>(lba / geom_.sectors);
+      addr.record = static_cast<unsigned char>(lba % geom_.sectors);
+      if (lba / geom_.sectors > 255)
+	return std::nullopt;
+      for (const Sector& sect : sectors_)
+	{
+	  if (sect.address == addr)
+	    {
+	      DFS::SectorBuffer buf;
+	      std::copy(sect.data.begin(), sect.data.end(), buf.begin());
+	      return buf;
+	    }
+	}
+      return std::nullopt;
     }
 
     std::string description() const override
